@@ -459,6 +459,7 @@ type Contract struct {
 }
 
 type SpecFunc struct {
+	Pkg    string // package path of the contract file that defines it ("" for .spec files): names in the body resolve there
 	Opaque bool // uninterpreted unless the contract under verification reveals it
 	Name   string
 	Params []QVar
@@ -817,6 +818,7 @@ func (db *SpecDB) ParseSpecTextIn(lines []string, srcs []string, pkg string) err
 				return err
 			}
 			sf.Opaque = opaque
+			sf.Pkg = pkg
 			db.Funcs[sf.Name] = sf
 			db.FuncOrder = append(db.FuncOrder, sf.Name)
 		case "axiom":
